@@ -783,6 +783,13 @@ static void annotate(hwloc_topology_t t, unsigned variant) {
   unsigned npu = hwloc_get_nbobjs_by_type(t, HWLOC_OBJ_PU), nnuma = hwloc_get_nbobjs_by_type(t, HWLOC_OBJ_NUMANODE);
   hwloc_obj_add_info(root, "VerifInfo", "root value");
   hwloc_obj_add_info(hwloc_get_obj_by_type(t, HWLOC_OBJ_PU, 0), "PUInfo", "a&b<c>\"d\"");
+  /* NUMA nodes that already carry a subtype, as hwloc exports them on heterogeneous-memory machines: the memory-tier stage of the load
+   * (re-run on top of imported subtypes under HWLOC_MEMTIERS_REFRESH / HWLOC_MEMTIERS) must cope with them (C06-r8) */
+  if ((variant & 5) && nnuma) {
+    static const char *const st[] = {"DRAM", "HBM", "NVM", "SPM", "GPUMemory", "CXL-DRAM", "VerifOdd"};
+    for (unsigned i = 0; i < nnuma; i++)
+      if ((variant & 4) || i == 0) hwloc_obj_set_subtype(t, hwloc_get_obj_by_type(t, HWLOC_OBJ_NUMANODE, i), st[((variant >> 3) + ((variant & 64) ? i : 0)) % 7]);
+  }
   if (variant & 1) {
     hwloc_topology_insert_misc_object(t, root, "misc-root");
     hwloc_obj_t m = hwloc_topology_insert_misc_object(t, hwloc_get_obj_by_type(t, HWLOC_OBJ_PU, npu - 1), "misc-pu");
